@@ -18,7 +18,7 @@ from .. import common
 from ..common import sig_key
 
 LEVEL = "fault_enumeration"
-RULE = "Canary differentiations (outcomes under warnings-as-errors evaluated first, nested scalar derivative exposing level confusion, Hessian, container gradient, jvp, sparse/dense mix, checkpoint, deriv-of-grad, FFT Jacobian, rfft/irfft gradients, r_/c_, eigh eigenvectors, the bundled checker on a rule off by 5e-5) together with the ambient process state (np.geterr, print options, warnings filter count, recursion limit, simple module-level constants of every autograd module) are evaluated in a fresh subprocess (reference) and again after every fault / history step in a long-lived process; equality is bitwise. Faults: every k-th user-primitive call of 3 forward programs, every k-th rule application of their backward passes, trace exit via warning->error, and a private exception raised at every LINE event inside autograd/ of 3 victim programs (exhaustive per victim), each escaping to top level or caught by an enclosing differentiation that retries (depth 1-3, both modes); re-entrant use inside rules and forward functions; random histories mixing canaries, failing calls, primitive registrations, deprecated APIs, operator-object reuse, flatten / flatten_func / optimizer steps on trees with empty containers and grad_named on same-named functions, with registry snapshots and the warnings filter list compared before the harness restores it; the whole G-prim catalogue pulled back / pushed forward twice in one process (catalogue order, then reverse order, then twice under warnings-as-errors) and once more in a fresh interpreter in reverse order, outcomes (bits or exception type) compared per configuration. Non-trivial iff a fault was actually injected (exception observed) or a history step executed; distinct = distinct (fault class, victim, fault index) resp. history signatures."
+RULE = "Canary differentiations (outcomes under warnings-as-errors evaluated first, nested scalar derivative exposing level confusion, Hessian, container gradient, jvp, sparse/dense mix, checkpoint, deriv-of-grad, FFT Jacobian, rfft/irfft gradients, r_/c_, eigh eigenvectors, the bundled checker on a rule off by 5e-5) together with the ambient process state (np.geterr, print options, warnings filter count, recursion limit, simple module-level constants of every autograd module) are evaluated in a fresh subprocess (reference) and again after every fault / history step in a long-lived process; equality is bitwise. Faults: every k-th user-primitive call of 3 forward programs, every k-th rule application of their backward passes, trace exit via warning->error, and a private exception raised at every LINE event inside autograd/ of 3 victim programs (exhaustive per victim), each escaping to top level or caught by an enclosing differentiation that retries (depth 1-3, both modes); re-entrant use inside rules and forward functions; random histories mixing canaries, failing calls, primitive registrations, deprecated APIs, operator-object reuse, flatten / flatten_func / optimizer steps on trees with empty containers, grad_named on same-named functions, a transient fault in a rule (maker or closure) of a non-first argument followed by a retry with the same closure, an integer-typed traced value in a rule-less position followed by the float case (still loud), user code memoising on traced scalars across differentiations, with registry snapshots and the warnings filter list compared before the harness restores it; the whole G-prim catalogue pulled back / pushed forward twice in one process (catalogue order, then reverse order, then twice under warnings-as-errors) and once more in a fresh interpreter in reverse order, outcomes (bits or exception type) compared per configuration. Non-trivial iff a fault was actually injected (exception observed) or a history step executed; distinct = distinct (fault class, victim, fault index) resp. history signatures."
 ASSUMPTIONS = ["asynchronous exceptions between bytecodes of one line are not injected (LINE granularity)", "bitwise reproducibility across processes assumes single-threaded BLAS (OMP/OPENBLAS threads = 1, set by the runner)"]
 EXHAUSTIVE = {"C19": "all LINE fault points of each victim; all k for forward-call and rule-application faults"}
 
